@@ -197,6 +197,8 @@ func (b *Batch) Commit() error {
 	logRecord := b.db.recordPool.Get().(*datafile.LogRecord)
 	logRecord.Key = append(logRecord.Key, b.batchID.Bytes()...)
 	logRecord.Type = datafile.LogRecordBatchFinished
+	// 完成标识记录必须携带批次 ID, 重启加载索引时据此应用该批次的暂存记录
+	logRecord.BatchID = uint64(b.batchID)
 	_, err = b.db.activeFile.WriteLogRecord(logRecord, b.db.logRecordHeader)
 	b.db.putRecordToPool(logRecord)
 	if err != nil {
